@@ -497,6 +497,15 @@ func Extract(root string) (*Table, error) {
 			}
 		}
 		pubNotes = append(pubNotes, anotes...)
+		lrow, lnotes := pa.lentRows()
+		for _, r := range lrow {
+			k := r.semKey()
+			if _, ok := all[k]; !ok {
+				all[k] = r
+				order = append(order, k)
+			}
+		}
+		pubNotes = append(pubNotes, lnotes...)
 		for t := range pa.tracked {
 			tbl.Types = append(tbl.Types, t)
 		}
